@@ -1,6 +1,16 @@
 """C10: orchestration of potential building and slice windows (abtem/potentials/iam.py) is hand-modelled
-(Pattern A, Model/Build.lean) and tied by tracing correspondence; the modelled functions are fingerprinted."""
-SITES = []
+(Pattern A, Model/Build.lean) and tied by tracing correspondence; the modelled functions are fingerprinted.
+Two expressions are translated (Gen/Build.lean): the number of slices of the array allocated by the eager build and the
+number of slices declared for every chunk of the lazy build."""
+_W = dict(gen="Build", file="abtem/potentials/iam.py", func="_FieldBuilder.build",
+          params_map={"first_slice": "first", "last_slice": "last"}, params=["first", "last"],
+          param_types={"first": "Int", "last": "Int"}, ret="Int", modes=["rat"])
+SITES = [
+    # array = xp.zeros(self.ensemble_shape + (last_slice - first_slice,) + self.base_shape[1:], …)
+    dict(_W, name="eagerWidth", select=("assign", "array", 1), path=["args", 0, "left", "right", "elts", 0]),
+    # chunks = chunks + (last_slice - first_slice,) + self.base_shape[1:]
+    dict(_W, name="lazyWidth", select=("assign", "chunks", 1), path=["left", "right", "elts", 0]),
+]
 FINGERPRINTS = {
     "BaseField._exit_plane_after": ("abtem/potentials/iam.py", "BaseField._exit_plane_after"),
     "_validate_exit_planes": ("abtem/potentials/iam.py", "_validate_exit_planes"),
